@@ -18,6 +18,7 @@
 #include <array>
 extern "C" {
 #include "linkhash.h"
+#include "printbuf.h"
 #include "json_pointer.h"
 }
 
@@ -348,6 +349,28 @@ struct C18 : Property
 		out += LIB(json_pointer_get(root, "/arr/1", &got)) == 0 ? ";" + typed_dump(got) : ";-";
 		LIB(json_pointer_set(&cp, "/arr/0", json_object_new_string("set")));
 		out += LIB(json_object_to_json_string_ext(cp, JSON_C_TO_STRING_SPACED | JSON_C_TO_STRING_PRETTY));
+		// convenience parser, the print buffer's formatted append on a private buffer, and a constant-key add: entry points that
+		// could hide a process-wide scratch area or cache behind a thread-private interface
+		{
+			enum json_tokener_error verr = json_tokener_success;
+			struct json_object *vo = LIB(json_tokener_parse_verbose(text.c_str(), &verr));
+			out += ";pv:" + std::to_string((int)verr) + ":" + typed_dump(vo);
+			if (vo)
+				LIBV(json_object_put(vo));
+			struct printbuf *pb = LIB(printbuf_new());
+			if (pb)
+			{
+				LIB(sprintbuf(pb, "%d|%s|%d", salt, text.substr(0, 40).c_str(), salt * 7));
+				LIB(sprintbuf(pb, "#%05d", salt));
+				out += ";pb:" + std::string(pb->buf, (size_t)pb->bpos);
+				LIBV(printbuf_free(pb));
+			}
+			static const char *const_keys[4] = {"const-alpha", "const-beta", "const-gamma", "const-delta"};
+			const char *ck = const_keys[salt % 4];
+			LIB(json_object_object_add_ex(root, ck, json_object_new_int(salt), JSON_C_OBJECT_ADD_CONSTANT_KEY | JSON_C_OBJECT_ADD_KEY_IS_NEW));
+			struct json_object *cv = nullptr;
+			out += LIB(json_object_object_get_ex(root, ck, &cv)) ? ";ck:" + typed_dump(cv) : std::string(";ck:LOST");
+		}
 		// the same text through the descriptor entry point, each thread on its own (simulated) file
 		{
 			std::string path = "/jsim/w4-" + std::to_string(salt) + "-" + std::to_string(std::hash<std::string>{}(text)) + ".json";
